@@ -255,3 +255,48 @@ def PointTier_insertSpace(self, start, duration, _collisionMode):
 
 def getValuesInInterval(dataTupleList, start, end):
     return [d for d in dataTupleList if start <= d[0] and d[0] <= end]
+
+
+# ---- C11: insertEntry / deleteEntry ------------------------------------------------------
+# "Inserting an entry that collides with nothing adds it and nothing else changes. On collision,
+# 'error' raises CollisionError, 'replace' removes exactly the colliding entries and inserts the new
+# one, and 'merge' replaces them by one entry covering their joint extent whose label joins all labels
+# with '-' in time order (old then new for points). Afterwards the tier is in time order and its span
+# has grown just enough to contain the new entry; deleteEntry removes exactly the given entry and
+# raises if it is absent."
+
+from spec.prims import first_index, remove_at
+
+COLLISION_MODES = ("replace", "merge", "error")
+
+
+def TextgridTier_deleteEntry(self, entry):
+    i = first_index(self._entries, lambda e: e == entry)
+    if i < 0:
+        raise ValueError("")
+    self._entries = remove_at(self._entries, i)
+
+
+def IntervalTier_insertEntry(self, entry, collisionMode, collisionReportingMode):
+    if collisionMode not in COLLISION_MODES:
+        raise errors.WrongOption("collisionMode", collisionMode, COLLISION_MODES)
+    if collisionReportingMode not in REPORTING_MODES:
+        raise errors.WrongOption("collisionReportingMode", collisionReportingMode, REPORTING_MODES)
+    new = entry
+    if new.start >= new.end:
+        raise errors.ArgumentError("")
+    M = [e for e in self.entries if overlaps(e, new.start, new.end)]
+    rest = [e for e in self.entries if not overlaps(e, new.start, new.end)]
+    if len(M) == 0:
+        E2 = sorted(list(self.entries) + [new])
+    elif collisionMode == "replace":
+        E2 = sorted(rest + [new])
+    elif collisionMode == "merge":
+        G = sorted(M + [new])
+        merged = Interval(min([g.start for g in G]), max([g.end for g in G]), "-".join([g.label for g in G]))
+        E2 = sorted(rest + [merged])
+    else:
+        raise errors.CollisionError("")
+    self._entries = E2
+    self.minTimestamp = min(self.minTimestamp, new.start)
+    self.maxTimestamp = max(self.maxTimestamp, new.end)
